@@ -46,11 +46,16 @@ NestedAddSeq(a) == TSeq(<<Comp(I07, "man", <<>>),
                           Comp(TSeq(<<Comp(Flat(1, a), "man", <<>>), Comp(I07, "man", <<>>)>>, 2, FALSE), "man", <<>>)>>, 1, TRUE)
 
 \* family f, version a (0..AMax)
-Fams == <<"flat1", "flat2", "choice", "enum", "nadd", "nalt", "nroot", "list", "both", "naddlist", "naddseq">>
+\* wide families: version a has WBase + a additions, so that the versions lie on both sides of addition index 64 / of 64
+\* additions (the normally small number of 11.6 changes its form there)
+WBase == 62
+Fams == <<"flat1", "flat2", "choice", "enum", "nadd", "nalt", "nroot", "list", "both", "naddlist", "naddseq",
+          "enumwide", "choicewide", "flatwide">>
 Ver(f, a) ==
   CASE f = "flat1" -> Flat(1, a) [] f = "flat2" -> Flat(2, a) [] f = "choice" -> ChoiceV(a) [] f = "enum" -> EnumV(a)
     [] f = "nadd" -> NestedAdd(a) [] f = "nalt" -> NestedAlt(a) [] f = "nroot" -> NestedRoot(a) [] f = "list" -> ListOf(a)
     [] f = "both" -> Both(a) [] f = "naddlist" -> NestedAddList(a) [] f = "naddseq" -> NestedAddSeq(a)
+    [] f = "enumwide" -> EnumV(WBase + a) [] f = "choicewide" -> ChoiceV(WBase + a) [] f = "flatwide" -> Flat(1, WBase + a)
 
 \* zoo: index 1 is the sentinel type, then (family, version) in order
 NV == AMax + 1
@@ -87,6 +92,15 @@ ValSeq(f, a) ==
     [] f = "choice" -> <<[i |-> 0, v |-> 5], [i |-> 1, v |-> TRUE]>>
                         \o [j \in 1..a |-> [i |-> j + 1, v |-> IF j % 3 = 1 THEN Payload(2) ELSE IF j % 3 = 2 THEN 6 ELSE 0]]
     [] f = "enum" -> [j \in 1..(2 + a) |-> j - 1]
+    [] f = "enumwide" -> [j \in 1..(2 + WBase + a) |-> j - 1]
+    [] f = "choicewide" -> ChoiceVals(WBase + a)
+    \* (2^65 presence patterns are out of reach) everything present; only the first addition; the first and the last one
+    [] f = "flatwide" -> LET n == WBase + a
+                             one(j) == IF j % 3 = 1 THEN <<Payload(1)>> ELSE IF j % 3 = 2 THEN <<6>> ELSE <<4>>
+                             none(j) == IF j % 3 = 0 THEN <<3>> ELSE <<>>
+                         IN << << <<1>> >> \o [j \in 1..n |-> one(j)],
+                               << <<1>> >> \o [j \in 1..n |-> IF j = 1 THEN one(j) ELSE none(j)],
+                               << <<1>> >> \o [j \in 1..n |-> IF j \in {1, n} THEN one(j) ELSE none(j)] >>
     [] f = "nadd" -> LET xs == SetToSeq(InnerVals(a)) IN [j \in 1..Len(xs) |-> << <<2>>, <<xs[j]>>, <<7>> >>]
                      \o << << <<2>>, <<>>, <<7>> >> >>
     [] f = "nalt" -> LET xs == SetToSeq(InnerVals(a)) IN [j \in 1..Len(xs) |-> << <<[i |-> 1, v |-> xs[j]]>>, <<7>> >>]
